@@ -1,6 +1,8 @@
 package sim
 
 import (
+	"time"
+
 	"github.com/elnosh/gonuts/cashu"
 	"github.com/elnosh/gonuts/cashu/nuts/nut11"
 	"github.com/elnosh/gonuts/wallet"
@@ -23,13 +25,16 @@ func coreC17(tier string) []RunSpec {
 	}
 	out = append(out, RunSpec{Profile: "core:sigall-crossmint", Params: map[string]int{"scenario": 1, "fee": 0, "mints": 2}})
 	out = append(out, RunSpec{Profile: "core:sigall-crossmint-pending-again", Params: map[string]int{"scenario": 2, "fee": 0, "mints": 2}})
+	for k := 0; k < 4; k++ {
+		out = append(out, RunSpec{Profile: "core:melt-pending-past-expiry", Params: map[string]int{"scenario": 3, "fee": k % 3, "mints": 1, "k": k}})
+	}
 	return out
 }
 
 var c17Fees = []uint{0, 100, 1000}
 
 // wallet-level step kinds
-var wwKinds = []string{"mint", "send", "receive", "sendlocked", "melt", "resolvemelt", "reclaim", "mintswap", "rotate", "remelt"}
+var wwKinds = []string{"mint", "send", "receive", "sendlocked", "melt", "resolvemelt", "reclaim", "mintswap", "rotate", "remelt", "clock"}
 
 func (ww *WW) Step(kind int) {
 	switch wwKinds[kind] {
@@ -53,6 +58,8 @@ func (ww *WW) Step(kind int) {
 		ww.StepRotate([]uint64{0, 100, 1000})
 	case "remelt":
 		ww.StepRemelt()
+	case "clock":
+		ww.StepClock()
 	}
 }
 
@@ -85,6 +92,34 @@ func runC17(rc *RunCtx) {
 		rc.Nontrivial = true
 		return
 	}
+	if rc.P("scenario", 0) == 3 {
+		// a melt stays pending past its quote's expiry; the wallet reconciles before and after the
+		// payment reaches its outcome
+		ww.step = 0
+		ww.W.LN.ForceNextPay = "pending"
+		ww.StepMelt()
+		ww.W.LN.ForceNextPay = ""
+		ww.CheckWallets("step")
+		ww.op("clock+2h")
+		rc.S.Sleep(2 * time.Hour)
+		for _, w := range ww.Wallets {
+			for _, qid := range ww.PendQ[w] {
+				ww.op("w.checkmelt")
+				ww.W.WalletOp(w, ww.name("chk."+w), nil, func(wl *wallet.Wallet) { wl.CheckMeltQuoteState(qid) })
+			}
+		}
+		ww.CheckWallets("step")
+		for i := 0; i < 3; i++ {
+			ww.step = 1 + i
+			ww.StepResolveMelt()
+			ww.CheckWallets("step")
+		}
+		ww.Settle()
+		ww.CheckWallets("settled")
+		rc.S.Probe("c17_late_resolution")
+		rc.Nontrivial = true
+		return
+	}
 	if rc.P("scenario", 0) == 2 {
 		// the cross-mint payment stays in flight; the same token is then received again without
 		// swap-to-trusted; finally the payment succeeds
@@ -105,8 +140,8 @@ func runC17(rc *RunCtx) {
 		rc.Nontrivial = true
 		return
 	}
-	// weights:       mint send receive sendlocked melt resolvemelt reclaim mintswap rotate remelt
-	weights := []int{2, 5, 5, 2, 3, 2, 2, 1, 1, 2}
+	// weights:       mint send receive sendlocked melt resolvemelt reclaim mintswap rotate remelt clock
+	weights := []int{2, 5, 5, 2, 3, 2, 2, 1, 1, 2, 1}
 	rc.StepLoop(4, 18, func(i int) {
 		ww.step = i
 		ww.Step(T.Pick("step.kind", weights...))
